@@ -1,11 +1,13 @@
 import Common.Proto
-import Account.Lifecycle
+import Account.Interp
 /-!
 # `c11_model` — runs `Account.C11.entry` (dispatch + lifecycle) on the harness's op lines
 
   tbl <set> <width> <align> <dischex>:<hid> ...      -> ok <n> | bad-op
   ixs <hid>:<alen>:<set> ...                          -> ok | bad-op
-      set = L<pid> | N<sid>[b][e][x](<name>{<req}[!s|f|r..]=<set>,…)
+      set = L<pid> | N<sid>[b][e][x](<name>{<req}[!s|f|r|a|t|g..]=<set>,…) | S(<set>,…) | V<n>*<set>
+            | O<set> | R<set>
+  accounts = <n> | <n>P<i>.<j>…   (positions whose key is the program id)
   ix <off> <datahex> <naccts> <plan>                  -> t=<trace> r=<ok|bN|cN>
 -/
 open Common.Proto
@@ -55,7 +57,7 @@ def takeFlags (allowed : List Char) (cs : List Char) : List Char × List Char :=
   (cs.takeWhile allowed.contains, cs.dropWhile allowed.contains)
 
 mutual
-/-- set := `L<pid>` | `N<sid>[b][e][x](field,field,…)` -/
+/-- set := `L<pid>` | `N<sid>[b][e][x](field,field,…)` | `S(set,…)` | `V<n>*set` | `Oset` | `Rset` -/
 def parseSet : Nat → List Char → Option (ASet × List Char)
   | 0, _ => none
   | fuel + 1, 'L' :: cs => do
@@ -70,6 +72,24 @@ def parseSet : Nat → List Char → Option (ASet × List Char)
       let (fs, cs) ← parseFieldsT fuel cs
       pure (.node sid (fl.contains 'b') (fl.contains 'e') (fl.contains 'x') fs, cs)
     | _ => none
+  | fuel + 1, 'S' :: '(' :: ')' :: cs => pure (.seq [], cs)
+  | fuel + 1, 'S' :: '(' :: cs => do
+    let (ts, cs) ← parseSetsT fuel cs
+    pure (.seq ts, cs)
+  | fuel + 1, 'V' :: cs => do
+    let (n, cs) ← takeNat cs
+    match cs with
+    | '*' :: cs => do
+      let (t, cs) ← parseSet fuel cs
+      if n ≤ 32 then pure (.seq (List.replicate n t), cs) else none
+    | _ => none
+  | fuel + 1, 'O' :: cs => do
+    let (t, cs) ← parseSet fuel cs
+    pure (.opt .option t, cs)
+  | fuel + 1, 'R' :: cs => do
+    let (t, cs) ← parseSet fuel cs
+    -- `while !accounts.is_empty()`: at most 32 accounts per op line, one consumed per iteration
+    pure (.seq (List.replicate 33 (.opt .nonempty t)), cs)
   | _, _ => none
 /-- field := `<name>{<req}[!flags]=<set>`, fields separated by `,`, list closed by `)` -/
 def parseFieldsT : Nat → List Char → Option (List (FieldHdr × ASet) × List Char)
@@ -78,18 +98,29 @@ def parseFieldsT : Nat → List Char → Option (List (FieldHdr × ASet) × List
     let (name, cs) ← takeNat cs
     let (reqs, cs) ← takeReqs (cs.length + 1) cs
     let (fl, cs) := match cs with
-      | '!' :: cs => takeFlags ['s', 'f', 'r'] cs
+      | '!' :: cs => takeFlags ['s', 'f', 'r', 'a', 't', 'g'] cs
       | cs => ([], cs)
     match cs with
     | '=' :: cs => do
       let (sub, cs) ← parseSet fuel cs
-      let hdr : FieldHdr := ⟨name, reqs, fl.contains 's', fl.contains 'f', fl.contains 'r'⟩
+      let hdr : FieldHdr := ⟨name, reqs, fl.contains 's', fl.contains 'f', fl.contains 'r',
+        fl.contains 'a', fl.contains 't', fl.contains 'g'⟩
       match cs with
       | ',' :: cs => do
         let (rest, cs) ← parseFieldsT fuel cs
         pure ((hdr, sub) :: rest, cs)
       | ')' :: cs => pure ([(hdr, sub)], cs)
       | _ => none
+    | _ => none
+def parseSetsT : Nat → List Char → Option (List ASet × List Char)
+  | 0, _ => none
+  | fuel + 1, cs => do
+    let (t, cs) ← parseSet fuel cs
+    match cs with
+    | ',' :: cs => do
+      let (rest, cs) ← parseSetsT fuel cs
+      pure (t :: rest, cs)
+    | ')' :: cs => pure ([t], cs)
     | _ => none
 end
 
@@ -111,6 +142,7 @@ def parsePhase (c : Char) : Option Phase :=
   if c = 'a' then some .args else if c = 'd' then some .decode else if c = 'v' then some .validate
   else if c = 'p' then some .process else if c = 'c' then some .cleanup
   else if c = 'B' then some .vbefore else if c = 'E' then some .vextra else if c = 'X' then some .cextra
+  else if c = 'K' then some .vaddr else if c = 'T' then some .vtemp else if c = 'G' then some .varg
   else none
 
 def parseErr (s : String) : Option Err :=
@@ -136,9 +168,16 @@ def parseFault (tok : String) : Option Fault :=
     match l.toList with
     | c :: rest => do
       let ph ← parsePhase c
-      let tag ← (String.ofList rest).toNat?
       let e ← parseErr r
-      if tag < 4294967296 then some ⟨ph, tag, e⟩ else none
+      match (String.ofList rest).splitOn "@" with
+      | [t] => do
+        let tag ← t.toNat?
+        if tag < 4294967296 then some ⟨ph, tag, none, e⟩ else none
+      | [t, sl] => do
+        let tag ← t.toNat?
+        let slot ← sl.toNat?
+        if tag < 4294967296 ∧ slot < 4294967296 then some ⟨ph, tag, some slot, e⟩ else none
+      | _ => none
     | [] => none
   | _ => none
 
@@ -148,19 +187,37 @@ def parsePlan (tok : String) : Option FaultPlan :=
 def phaseChar : Phase → String
   | .args => "a" | .decode => "d" | .validate => "v" | .process => "p" | .cleanup => "c"
   | .vbefore => "B" | .vextra => "E" | .cextra => "X"
+  | .vaddr => "K" | .vtemp => "T" | .varg => "G"
 
-/-- a cached leaf is printed as its position in the account list (= decode order) -/
-def showCached (order : List Nat) : Option Nat → String
+def leafPhase : Phase → Bool
+  | .decode | .validate | .cleanup | .vaddr | .vtemp | .varg => true
+  | _ => false
+
+def showCached : Option Nat → String
   | none => "-"
-  | some p => toString (order.idxOf p)
+  | some p => toString p
 
-def showEvent (order : List Nat) (e : Event) : String :=
+def showEvent (e : Event) : String :=
   match e.phase with
-  | .process => s!"p{e.tag}:{toHex e.payload}:{showCached order e.funder}:{showCached order e.recipient}"
-  | ph => s!"{phaseChar ph}{e.tag}"
+  | .process => s!"p{e.tag}:{toHex e.payload}:{showCached e.funder}:{showCached e.recipient}"
+  | ph =>
+    if leafPhase ph && e.slot != e.tag then s!"{phaseChar ph}{e.tag}@{e.slot}"
+    else s!"{phaseChar ph}{e.tag}"
 
-def showTrace (order : List Nat) (tr : Trace) : String :=
-  if tr.isEmpty then "-" else ".".intercalate (tr.map (showEvent order))
+def showTrace (tr : Trace) : String :=
+  if tr.isEmpty then "-" else ".".intercalate (tr.map showEvent)
+
+/-- `<n>` or `<n>P<i>.<j>…`: `n` accounts, the listed positions carry the program id as key -/
+def parseAccts (tok : String) : Option (List Bool) :=
+  match tok.splitOn "P" with
+  | [n] => do
+    let n ← n.toNat?
+    if n ≤ 32 then some (List.replicate n false) else none
+  | [n, ps] => do
+    let n ← n.toNat?
+    let idx ← allM String.toNat? (ps.splitOn ".")
+    if n ≤ 32 ∧ idx.all (· < n) then some ((List.range n).map (fun i => idx.contains i)) else none
+  | _ => none
 
 def showResult : Result → String
   | .ok => "ok"
@@ -192,16 +249,12 @@ def step (st : St) (toks : List String) : St × String :=
   | ["ix", off, data, naccts, plan] =>
     match st.tbl, st.ixs with
     | some t, some ixs =>
-      match off.toNat?, parseHex data, naccts.toNat?, parsePlan plan with
-      | some off, some bs, some n, some pl =>
-        if off > 7 ∨ n > 16 then (st, "bad-op")
+      match off.toNat?, parseHex data, parseAccts naccts, parsePlan plan with
+      | some off, some bs, some accts, some pl =>
+        if off > 7 then (st, "bad-op")
         else
-          let (tr, r) := entry t ixs off bs n pl
-          -- the instruction that ran (if any) fixes how cached leaves are printed
-          let order := match tr.head? with
-            | some e => ((ixs.find? (fun i => i.id == e.tag)).map (·.set.decodeOrder)).getD []
-            | none => []
-          (st, s!"t={showTrace order tr} r={showResult r}")
+          let (tr, r) := entry t ixs off bs accts pl
+          (st, s!"t={showTrace tr} r={showResult r}")
       | _, _, _, _ => (st, "bad-op")
     | _, _ => (st, "bad-op")
   | _ => (st, "bad-op")
